@@ -5,7 +5,6 @@ import (
 	"crypto/tls"
 	"errors"
 	"fmt"
-	"google.golang.org/protobuf/proto"
 	"net/http"
 	"os"
 	"path/filepath"
@@ -745,8 +744,10 @@ func c20Shared(c *sim.Case) {
 			}
 			sh.desc = fmt.Sprintf("#%d{interval=%v skip=%v}", len(loaded), sh.interval, sh.cfg.SkipVerifyPeerCert)
 			for _, prev := range loaded {
-				if proto.Equal(prev.cfg, sh.cfg) {
-					sh = nil // identical settings are C20's other clause; here every setting is a new one
+				// identical in meaning (same file, same interval, same effective skip-verify, however it is spelled) is
+				// C20's other clause - such settings share one configuration; here every setting is a new one
+				if prev.interval == sh.interval && boolStrRef(prev.cfg.SkipVerifyPeerCert) == boolStrRef(sh.cfg.SkipVerifyPeerCert) {
+					sh = nil
 					break
 				}
 			}
@@ -789,6 +790,7 @@ func c20Shared(c *sim.Case) {
 func TestC20(t *testing.T) {
 	c20Setup()
 	r := sim.NewRun(t, "C20")
+	r.ShrinkTime = "2s" // real-time cases: a shrink attempt costs seconds
 	defer r.Finish()
 	r.Rule = "per case 1-3 TLS settings: CA none / inline CA_i / CA file; skip-verify unset, true, false or a string (\"true\", \"false\", \"1\", \"TRUE\", \"yes\", \"\"); refresh interval unset, 0, 20 ms, 50 ms; histories of load (single and 2-4 concurrent), file rewrite (another CA, same bytes, garbage), wait, and HTTPS requests through clients built by the real NewHTTPClient against in-memory TLS servers whose certificates chain to the process system root (injected via SSL_CERT_FILE), CA_0..2 or a foreign CA; a closing round handshakes with every CA server after the longest interval. Oracle: reference trust function with the effective CA of a watched file = last valid content older than the interval (handshakes inside the interval are 'either', polled up to 5 s); pointer identity for identical settings; every configuration ever returned must follow a rotation. Part 'shared-file': histories of 3-7 steps on ONE CA file - load one more setting (without reloads, or with an interval of 150 ms - 1.5 s; other spellings of skip-verify) or rotate the file to another CA, also back to an earlier one; after every rotation the setting loaded last, if it asks for reloads, trusts exactly the new content and every setting without reloads exactly what it loaded. Separate state machine on FileWatcher with counting readers (watch, re-watch the same id, cancel). Non-trivial = the history rotated a CA file and afterwards handshook successfully with the new-CA server and unsuccessfully with an old-CA server / a watcher was superseded; distinct = distinct (settings, trace)."
 	r.Assumptions = []string{"real time: outcomes inside a refresh interval are not judged; expected outcomes after a rotation are polled for up to 5 s", "distinct settings that both ask for reloads use distinct files (re-watching a file supersedes the earlier watcher, by the statement)"}
